@@ -295,7 +295,7 @@ def gen_tree(rng, frag, pool, cfg):
             if has_single:
                 want_group = False
         elif mix == "glencoe":
-            if has_group:
+            if has_group or any(len(r["ch"]) == 1 and r["min"] == 0 for r in parent["rels"]):
                 want_group = False
         if want_group:
             n = rng.randint(2, min(remaining, cfg.get("max_group", 4)))
